@@ -540,6 +540,45 @@ Definition sv_is_multiset (m : mode) (sv : sparse) : res bool :=
   run_loop (sv_fuel sv) (multi_step m sv) (sv_one_iter sv, sv_len sv).
 
 
+(* ---------------------------------------------------------------- driving the iterators (what a caller observes) *)
+
+(* `.next()` on a freshly returned iterator *)
+Definition it_first (m : mode) (sv : sparse) (it : res sv_iter) : res (option (N * N)) :=
+  let* i := it in let* (_, x) := it_next_f m sv i in Ok x.
+
+(* `.take(k).collect()` *)
+Fixpoint it_take (m : mode) (sv : sparse) (k : nat) (it : sv_iter) : res (list (N * N)) :=
+  match k with
+  | O => Ok []
+  | S k' => let* (it', x) := it_next_f m sv it in
+            match x with
+            | None => Ok []
+            | Some p => let* t := it_take m sv k' it' in Ok (p :: t)
+            end
+  end.
+Fixpoint zi_take (m : mode) (sv : sparse) (k : nat) (z : zero_iter) : res (list (N * N)) :=
+  match k with
+  | O => Ok []
+  | S k' => let* (z', x) := zi_next_f m sv z in
+            match x with
+            | None => Ok []
+            | Some p => let* t := zi_take m sv k' z' in Ok (p :: t)
+            end
+  end.
+(* a sequence of calls: false = next(), true = next_back() *)
+Fixpoint it_drive (m : mode) (sv : sparse) (pat : list bool) (it : sv_iter) : res (list (option (N * N))) :=
+  match pat with
+  | [] => Ok []
+  | b :: t => let* (it', x) := (if b then it_next_back m sv it else it_next_f m sv it) in
+              let* r := it_drive m sv t it' in Ok (x :: r)
+  end.
+Fixpoint sbi_drive (m : mode) (sv : sparse) (pat : list bool) (s : sbit_iter) : res (list (option bool)) :=
+  match pat with
+  | [] => Ok []
+  | b :: t => let* (s', x) := (if b then sbi_next_back m sv s else sbi_next_f m sv s) in
+              let* r := sbi_drive m sv t s' in Ok (x :: r)
+  end.
+
 (* ---------------------------------------------------------------- Serialize *)
 
 Definition sv_serialize (sv : sparse) : list N :=
